@@ -18,7 +18,7 @@ ASSUMPTIONS = ["PARTIAL: UDP ordering/loss on loopback and asyncio's isolation o
 
 def _impl(a):
     return BH.run_bridge_sequence(a["ports"], [(p, h) for p, h, _ in a["arrivals"]], fail_on=a["fail_on"], wellknown=a.get("wellknown", False),
-                                  restart=a.get("restart", False), burst=a.get("burst", False))
+                                  restart=a.get("restart", False), burst=a.get("burst", False), cbform=a.get("cbform", "function"))
 
 
 def _model(a):
@@ -157,6 +157,10 @@ def streams(ctx):
                   sample_every=70)
     ctx.run_cases(SEQ, "sequences-on-a-bridge-that-was-stopped-and-started-again",
                   [dict(gen_sequence(rng, pool), restart=True) for _ in range(ctx.n(15, 300))], exhaustive=False, sample_every=7)
+    # the callback handed over as an inline lambda, a bound method of an object nobody else keeps, a partial, a callable object - and
+    # a second start() attempted (in vain) on the running bridge before the traffic
+    forms = [dict(gen_sequence(rng, pool), cbform=f) for f in BH.CALLBACK_FORMS[1:] for _ in range(ctx.n(4, 60))]
+    ctx.run_cases(SEQ, "callbacks-of-other-kinds-that-only-the-bridge-refers-to", forms, exhaustive=False, sample_every=7)
     ctx.run_cases(BURST, "bursts-without-anything-in-between", [gen_burst(rng, pool) for _ in range(ctx.n(40, 800))], exhaustive=False,
                   sample_every=19)
 
